@@ -41,8 +41,12 @@ def build_model(variant="base"):
     rs = [rx("EX_A_e", {Ae: -1}, -10, 10), rx("tA", {Ae: -1, A: 1}, -10, 10, "g4"),
           rx("v1", {A: -1, B: 1}, 0, 10, "g1 and g2"), rx("v2", {B: -1, C: 1}, 0, 10, "g2 or g3"),
           rx("v3", {A: -1, C: 1}, 0, 4, "g5"), rx("tC", {C: -1, Ce: 1}, 0, 10), rx("EX_C_e", {Ce: -1}, 0, 10)]
-    if variant == "cycle":
+    if variant in ("cycle", "unbounded"):
         rs.append(rx("v4", {C: -1, B: 1}, 0, 10, "g3"))
+    if variant == "unbounded":
+        # the internal cycle v2/v4 has no capacity limit: those two fluxes have no finite maximum, all others have
+        rs[3].upper_bound = float("inf")
+        rs[-1].upper_bound = float("inf")
     m.add_reactions(rs)
     m.objective = "EX_C_e"
     return m
@@ -92,6 +96,13 @@ def cases(tier):
          gl, False),
         ("single_reaction_deletion_moma", "base",
          lambda m, p, items: single_reaction_deletion(m, items, method="linear moma", processes=p), rl, False),
+        # requests that mix reactions with and without a finite extreme (whatever the answer for the unbounded ones -
+        # a refusal or an infinite value - it is the same in every order and the bounded ones are not affected)
+        ("fva_unbounded", "unbounded", lambda m, p, items: flux_variability_analysis(m, reaction_list=items, processes=p),
+         ["v3", "v2", "v1"], True),
+        ("fva_unbounded_fraction", "unbounded",
+         lambda m, p, items: flux_variability_analysis(m, reaction_list=items, fraction_of_optimum=0.5, processes=p),
+         ["v4", "tC"], True),
         # a model on which the minimal-adjustment methods and FBA disagree about the knock-outs
         ("single_gene_deletion_moma_detour", "detour",
          lambda m, p, items: single_gene_deletion(m, items, method="linear moma", processes=p), ["g1", "g2", "g3", "g5"], False),
@@ -133,7 +144,13 @@ def baseline(name, tier):
     _, variant, fn, items, permute = spec
     with warnings.catch_warnings():
         warnings.simplefilter("ignore")
-        base = canon(fn(build_model(variant), 1, list(items) if items is not None else None))
+        def call(its):
+            try:
+                return canon(fn(build_model(variant), 1, its))
+            except Exception as exc:   # a refusal (e.g. no finite extreme) is an answer like any other
+                return ("raised", type(exc).__name__, str(exc)[:200])
+
+        base = call(list(items) if items is not None else None)
         singles = {}
         if name == "double_gene_deletion":
             from cobra.flux_analysis import double_gene_deletion
@@ -141,10 +158,12 @@ def baseline(name, tier):
             for a, b in itertools.combinations_with_replacement(items, 2):
                 singles.update(canon(double_gene_deletion(build_model(variant), [a], [b], processes=1)))
         if items is not None and name in ("fva", "fva_loopless", "single_reaction_deletion", "single_gene_deletion",
-                                          "single_gene_deletion_moma", "single_reaction_deletion_moma", "fva_pfba"):
+                                          "single_gene_deletion_moma", "single_reaction_deletion_moma", "fva_pfba",
+                                          "fva_unbounded", "fva_unbounded_fraction"):
             for it in items:
-                r = canon(fn(build_model(variant), 1, [it]))
-                singles.update(r)
+                r = call([it])
+                if isinstance(r, dict):
+                    singles.update(r)
     return base, singles
 
 
@@ -166,7 +185,7 @@ def run_task(payload):
     violations = []
     moma = "moma" in name
     base, singles = baseline(name, tier)
-    if not moma and singles and not all(same(base.get(k), v) for k, v in singles.items()):
+    if not moma and singles and isinstance(base, dict) and not all(same(base.get(k), v) for k, v in singles.items()):
         violations.append(({"fn": name, "check": "single-item call differs from the full call (processes=1)"},
                            {"name": name, "procs": 1, "perm": 0, "choices": []}, f"full {base}\nsingle {singles}"))
 
